@@ -172,7 +172,8 @@ def correspond(ctx):
     o_slow.check("des-tables", p.returncode == 0, {"op": "des-tables"}, (p.stdout + p.stderr)[-300:], "both threads get the DES block")
     # ---- 2e. the same for the Blowfish tables and for the digest look-up cache (first look-up of an OpenSSL-only digest)
     for op, script, want in (("blowfish-tables", "c19_blowfish_demo.py", "both threads get the bcrypt digest"), ("lookup-hash-cache", "c19_lookup_hash_demo.py", "both threads get the digest"),
-                             ("lazy-prefix-wrapper", "c19_lazy_wrapper_demo.py", "both threads get the single-thread answers while the wrapped handler's module is being imported")):
+                             ("lazy-prefix-wrapper", "c19_lazy_wrapper_demo.py", "both threads get the single-thread answers while the wrapped handler's module is being imported"),
+                             ("wordset-loader", "c19_wordset_demo.py", "both threads get a phrase of the word set, wherever the first one is preempted while loading it")):
         p = subprocess.run([sys.executable, "-W", "ignore", os.path.join(TOOLS, "corr", script)], capture_output=True, text=True, timeout=120, env=dict(os.environ, PYTHONPATH=REPO))
         o_slow.check(op, p.returncode == 0, {"op": op}, (p.stdout + p.stderr)[-300:], want)
     # ---- 3. after initialisation: concurrent hash / verify on shared hashers and contexts = sequential answers
@@ -297,7 +298,8 @@ def slow_runs(reps):
 def search(ctx, broken, seeds):
     """the property on the real code: enumerate / sample schedules of first calls, then free-running stress; first failure wins"""
     T, sched = _tools()
-    for op, script in (("des-tables", "c19_des_demo.py"), ("blowfish-tables", "c19_blowfish_demo.py"), ("lookup-hash-cache", "c19_lookup_hash_demo.py"), ("lazy-prefix-wrapper", "c19_lazy_wrapper_demo.py")):
+    for op, script in (("des-tables", "c19_des_demo.py"), ("blowfish-tables", "c19_blowfish_demo.py"), ("lookup-hash-cache", "c19_lookup_hash_demo.py"), ("lazy-prefix-wrapper", "c19_lazy_wrapper_demo.py"),
+                       ("wordset-loader", "c19_wordset_demo.py")):
         p = subprocess.run([sys.executable, "-W", "ignore", os.path.join(TOOLS, "corr", script)], capture_output=True, text=True, timeout=120, env=dict(os.environ, PYTHONPATH=REPO))
         if p.returncode != 0:
             return {"input": {"op": op}, "observed": (p.stdout + p.stderr)[-300:], "expected": "every thread gets the single-thread answer"}
@@ -370,8 +372,9 @@ def replay(ctx, inp):
     if op == "des-tables":
         p = subprocess.run([sys.executable, "-W", "ignore", os.path.join(TOOLS, "corr", "c19_des_demo.py")], capture_output=True, text=True, timeout=120, env=dict(os.environ, PYTHONPATH=REPO))
         return {"fails": p.returncode != 0, "observed": (p.stdout + p.stderr)[-300:]}
-    if op in ("blowfish-tables", "lookup-hash-cache", "lazy-prefix-wrapper"):
-        script = {"blowfish-tables": "c19_blowfish_demo.py", "lookup-hash-cache": "c19_lookup_hash_demo.py", "lazy-prefix-wrapper": "c19_lazy_wrapper_demo.py"}[op]
+    if op in ("blowfish-tables", "lookup-hash-cache", "lazy-prefix-wrapper", "wordset-loader"):
+        script = {"blowfish-tables": "c19_blowfish_demo.py", "lookup-hash-cache": "c19_lookup_hash_demo.py", "lazy-prefix-wrapper": "c19_lazy_wrapper_demo.py",
+                  "wordset-loader": "c19_wordset_demo.py"}[op]
         p = subprocess.run([sys.executable, "-W", "ignore", os.path.join(TOOLS, "corr", script)], capture_output=True, text=True, timeout=120, env=dict(os.environ, PYTHONPATH=REPO))
         return {"fails": p.returncode != 0, "observed": (p.stdout + p.stderr)[-300:]}
     if op == "slow-window":
